@@ -47,6 +47,9 @@ type StreamOpts struct {
 	CloseCode  int  // 0 = draw one
 	NoEmpty    bool // no zero-length fragments
 	UseZlib    bool
+	CtlDen     int // a control frame is inserted with probability 1/CtlDen at each slot (default 4)
+	Reason     int // -1 = draw; otherwise the close reason length
+	HasReason  bool
 }
 
 func maskKey(r *gen.R) [4]byte {
@@ -144,7 +147,11 @@ func genStream(r *gen.R, o StreamOpts) *Stream {
 		if !o.Controls {
 			return
 		}
-		for r.Chance(1, 4) {
+		den := o.CtlDen
+		if den == 0 {
+			den = 4
+		}
+		for r.Chance(1, den) {
 			f, ev := genControl(r, o.FromClient)
 			i := addFrame(f)
 			ev.First, ev.Last = i, i
@@ -219,7 +226,11 @@ func genStream(r *gen.R, o StreamOpts) *Stream {
 		var p []byte
 		ev := Ev{Kind: 8, Code: 1005}
 		if !(o.CloseCode == 0 && r.Chance(1, 6)) {
-			reason := utf8Reason(r, []int{0, 1, 20, 123}[r.Intn(4)])
+			rl := []int{0, 1, 20, 123}[r.Intn(4)]
+			if o.HasReason {
+				rl = o.Reason
+			}
+			reason := utf8Reason(r, rl)
 			p = wire.MkClose(code, reason)
 			ev.Code, ev.Reason = code, reason
 		}
